@@ -33,7 +33,10 @@ RULE = ('streams of 0-4 WF-T graphs with metadata x random subsets of the eight 
         '-1, 0, 3} x compact x triples x models {default, --amr, --noop, --model file.json} x input '
         'via stdin, one file or several files; run in-process through penman.__main__.main() with '
         'patched argv/stdin/stdout (probes attached) and, sampled, as real `python -m penman` '
-        'children under two hash seeds. Non-trivial: >=1 normalisation switch and >=1 graph.')
+        'children under two hash seeds. With --canonicalize-roles half of the streams are over-inverted; '
+        'hand-written comment lines; without content-changing options (or with --rearrange only) input and '
+        'output are read with the reference parser and interpretation and must give the same graphs and '
+        'metadata; --triples alone must print the triples of the documented reading. Non-trivial: >=1 normalisation switch and >=1 graph.')
 ANCHORS = ['penman.__main__:main', 'penman.__main__:process', 'penman.__main__:_process_in',
            'penman.__main__:_process_out', 'penman.__main__:_make_sort_key', 'penman.__main__:_indent',
            'penman.__main__:_get_model']
